@@ -186,6 +186,7 @@ def c16(tier):
     pairs, meta = [], {}
     nbase = 0
     near_done = {}
+    nc_done = {}
     rng = random.Random(1234 + sd)
     listing_re = re.compile(r"^1040_sb\.[15]_(payer|amount)_\d+$")
     for sc in scs:
@@ -288,6 +289,47 @@ def c16(tier):
                     continue
                 res2, _a = _resolve(year, request, g2, "o%s" % sc["sid"])
                 add_pair("withheld", int(round(d * 100)), res2, {"input": name, "delta": d})
+        # N.C. income tax withheld (every state row of a payer form that names NC): all such amounts brought to whole dollars first, then one of
+        # them raised by 1, 3 and 100 dollars -- the N.C. overpayment minus tax due moves by exactly that much, whoever owns the payer form
+        if "nc_d-400" in request and nc_done.get(year, 0) < (6 if tier == "quick" else 60):
+            import math
+            rows_nc = [("w-2", "box_15", "box_17"), ("1099-g", "box_10a_1", "box_11_1"), ("1099-g", "box_10a_2", "box_11_2"), ("1099-int", "box_15_1", "box_17_1"),
+                       ("1099-int", "box_15_2", "box_17_2"), ("1099-div", "box_14_1", "box_16_1"), ("1099-div", "box_14_2", "box_16_2"),
+                       ("1099-r", "box_14_1_state", "box_14_1"), ("1099-r", "box_14_2_state", "box_14_2")]
+            ncboxes = []
+            for k3, v3 in given.items():
+                m3 = re.match(r"^([a-z0-9-]+):(\d+)\.(.+)$", k3)
+                if not m3:
+                    continue
+                for (t3, sbox, abox) in rows_nc:
+                    if m3.group(1) == t3 and m3.group(3) == sbox and str(v3).strip().split(".")[-1] == "NC" and ("%s:%s.%s" % (t3, m3.group(2), abox)) in given:
+                        ncboxes.append("%s:%s.%s" % (t3, m3.group(2), abox))
+            try:
+                gA = dict(given)
+                for b3 in ncboxes:
+                    gA[b3] = "%.2f" % math.floor(float(given[b3] or 0))
+            except ValueError:
+                ncboxes = []
+            if ncboxes:
+                nc_done[year] = nc_done.get(year, 0) + 1
+                rA, _a = _resolve(year, request, gA, "ncA%s" % sc["sid"])
+                if not rA["abort"] and rA.get("solved"):
+                    keepn = ("nc_d-400.28", "nc_d-400.26a")
+                    An = numeric_solution(year, rA["values"])[0]
+                    # a payer form owned by both spouses first, then the others
+                    ncboxes.sort(key=lambda b3: (str(given.get(b3.split(".")[0] + ".belongs_to", "")).strip().split(".")[-1] != "both", b3))
+                    for b3 in ncboxes[:(2 if tier == "quick" else 6)]:
+                        for d in (1.0, 3.0, 100.0):
+                            gB = dict(gA)
+                            gB[b3] = "%.2f" % (float(gA[b3]) + d)
+                            rB, _b = _resolve(year, request, gB, "ncB%s" % sc["sid"])
+                            if rB["abort"] or not rB.get("solved"):
+                                continue
+                            Bn = numeric_solution(year, rB["values"])[0]
+                            pid2 = len(pairs) + 1
+                            pairs.append({"pid": pid2, "kind": "nc-withheld", "delta": int(round(d * 100)), "A": {k4: An[k4] for k4 in keepn if k4 in An},
+                                          "B": {k4: Bn[k4] for k4 in keepn if k4 in Bn}, "listing": []})
+                            meta[pid2] = {"kind": "nc-withheld", "year": year, "request": request, "given": gA, "change": {"input": b3, "delta": d, "whole_dollar_base": True}, "sid": sc["sid"]}
         # an increment that makes two copies carry exactly the same amount (aggregations must not care)
         for box, kind in (("box_2", "withheld"), ("box_1", "wages")):
             a0, a1 = given.get("w-2:0." + box), given.get("w-2:1." + box)
